@@ -12,7 +12,7 @@ from abc import ABC
 
 def round_node(node: schemdraw.util.Point) -> schemdraw.util.Point:
     def local_round(x):
-        return round(x, ndigits=2)
+        return round(round(x, ndigits=9), ndigits=2)
     return schemdraw.util.Point((local_round(node.x), local_round(node.y)))
 
 def get_nodes(element: schemdraw.elements.Element, n_labels: tuple[str, ...]=('start', 'end')) -> list[schemdraw.util.Point]:
